@@ -417,24 +417,48 @@ func (a *EpochBitmapAllocator) UnmarshalJSON(data []byte) error {
 		GracePeriod:  state.GracePeriod,
 	}
 
+	a.mu.Lock()
+	defer a.mu.Unlock()
+
 	temp, err := NewEpochBitmapAllocator(config)
 	if err != nil {
 		return err
 	}
 
-	// Restore state
-	a.mu.Lock()
-	defer a.mu.Unlock()
+	// The snapshot is not taken on trust: the generation array must have the size
+	// of the pool, and both tables are rebuilt from the subscriber map. A lease
+	// that is out of range or held twice is rejected; a lease that has already
+	// expired at the snapshot's epoch is dropped, as AdvanceEpoch would have done.
+	if len(state.Generations) != len(temp.generations) {
+		return fmt.Errorf("generation array has %d bytes, pool needs %d", len(state.Generations), len(temp.generations))
+	}
+	temp.generations = state.Generations
+	temp.currentEpoch = state.CurrentEpoch
+	for subscriberID, idx := range state.Subscribers {
+		if idx == 0 || idx >= temp.totalIPs-1 {
+			return fmt.Errorf("subscriber %s: index %d outside the pool", subscriberID, idx)
+		}
+		if other, held := temp.ipToSubscriber[idx]; held {
+			return fmt.Errorf("index %d held by both %s and %s", idx, other, subscriberID)
+		}
+		if temp.isGenerationFree(temp.getGeneration(idx), temp.freeThreshold()) {
+			continue // expired
+		}
+		temp.subscribers[subscriberID] = idx
+		temp.ipToSubscriber[idx] = subscriberID
+	}
 
+	// Restore state
 	a.baseIP = temp.baseIP
 	a.mask = temp.mask
 	a.prefixLength = temp.prefixLength
 	a.totalIPs = temp.totalIPs
-	a.generations = state.Generations
-	a.subscribers = state.Subscribers
-	a.ipToSubscriber = state.IPToSubscriber
-	a.currentEpoch = state.CurrentEpoch
-	a.gracePeriod = state.GracePeriod
+	a.generations = temp.generations
+	a.subscribers = temp.subscribers
+	a.ipToSubscriber = temp.ipToSubscriber
+	a.currentEpoch = temp.currentEpoch
+	a.gracePeriod = temp.gracePeriod
+	a.nextFreeHint = temp.nextFreeHint
 
 	return nil
 }
